@@ -1656,11 +1656,20 @@ func (e *Exec) checkRefines(st *State, results []Val, pos token.Pos) {
 	for _, id := range e.con.Refines {
 		icon, binder := e.refineBinder(id)
 		sc := &Scope{e: e, c: c, cur: st.heap, old: c.entry, params: binder, names: map[string]Val{}, pkg: pkgOf(e.fn), tracks: map[string]*trackInfo{}, results: results}
+		// callers through the refined contract have established its preconditions
+		esc := &Scope{e: e, c: c, cur: c.entry, old: c.entry, params: binder, names: map[string]Val{}, pkg: pkgOf(e.fn), tracks: map[string]*trackInfo{}}
+		var ihyp []string
+		for _, r := range icon.Requires {
+			ihyp = append(ihyp, e.evalBool(esc, r))
+		}
 		for i, en := range icon.Ensures {
 			if mentionsTracks(en.E, icon) {
 				continue
 			}
 			g := e.evalBool(sc, en)
+			if len(ihyp) > 0 {
+				g = fmt.Sprintf("(=> %s %s)", and(ihyp...), g)
+			}
 			c.oblige("refine", fmt.Sprintf("refine[%s:%d]@ret%d", lastSeg(id), i+1, e.retCount), st.pc, g, "interface contract "+id+": "+en.Src, e.pos(pos))
 		}
 		// the refined contract's frame: callers through the interface rely on its modifies clause
